@@ -445,7 +445,22 @@ class State:
             b.update(OBJ=4)
         if n >= 2 and st[-2].k in ("obj", "glob") and st[-1].k != "mark":
             b.setdefault("BUILD", 3)
+        # a mutable container that is referenced more than once (memo / DUP): mutate it
+        if n >= 1 and st[-1].k in ("list", "dict", "set") and self._aliased(st[-1]):
+            b.update(NONE=3, BININT1=3, MARK=3, POP=2)
+        if n >= 2 and st[-2].k == "list" and self._aliased(st[-2]):
+            b.update(APPEND=8)
+        if n >= 3 and st[-3].k == "dict" and self._aliased(st[-3]):
+            b.update(SETITEM=8)
+        if t is not None and n - t - 2 >= 0 and self._aliased(st[n - t - 2]):
+            b.update(APPENDS=6, SETITEMS=6, ADDITEMS=6)
         return b
+
+    def _aliased(self, v):
+        if v.k not in ("list", "dict", "set"):
+            return False
+        refs = sum(1 for x in self.st if x is v) + sum(1 for x in self.memo.values() if x is v)
+        return refs >= 2
 
     def _legal(self, op, t):
         st = self.st
@@ -841,6 +856,14 @@ def programs(profile, max_len=14, min_len=1, framing=True):
             op = draw(hs.sampled_from(ops))
             ps = s.params(op)
             arg = ps[0] if len(ps) == 1 else draw(hs.sampled_from(ps))
+            if op == "GLOBAL" and profile.all_encodings and draw(hs.booleans()):
+                # same global, resolved through STACK_GLOBAL with drawn string encodings
+                for text in arg:
+                    enc = draw(hs.sampled_from(str_ops(text)))
+                    s.apply((enc, text))
+                if s._legal("STACK_GLOBAL", s.tsm()):
+                    s.apply(("STACK_GLOBAL", None))
+                continue
             s.apply((op, arg))
         finalize(s)
         proto = None
